@@ -31,6 +31,9 @@ LEVEL_TEXT = (
 )
 
 
+OPTIMIZE_SLOTS = {"quick": [2], "thorough": [2]}  # one interpreter slot in three runs under `python -O` (asserts stripped)
+
+
 def gen_specs(rng: random.Random, tier: str, n: int) -> list[dict]:
     specs = []
     for i in range(n):
@@ -60,6 +63,7 @@ def gen_specs(rng: random.Random, tier: str, n: int) -> list[dict]:
         specs.append(
             {
                 "seed": rng.getrandbits(48),
+                "slot": i % 3,
                 "cfg": cfg,
                 "history": hist,
                 "parallel": parallel,
